@@ -118,7 +118,13 @@ impl Function for EncodeProto {
         let path_buf = PathBuf::from(os_string);
         let path = Path::new(&path_buf);
         let descriptor =
-            get_message_descriptor(path, &message_type_str).expect("message type not found");
+            get_message_descriptor(path, &message_type_str).map_err(|_| {
+                function::Error::InvalidArgument {
+                    keyword: "desc_file",
+                    value: desc_file.clone(),
+                    error: "the message type could not be loaded from the descriptor file",
+                }
+            })?;
 
         Ok(EncodeProtoFn {
             descriptor,
